@@ -12,7 +12,8 @@ LEVEL_TEXT = ("calc_duration is compared with (end-start) mod 1440 rendered H:MM
               "and samples the rest with Hypothesis.")
 RULE = ("pairs (start, end) of HH:MM strings; thorough: all 2,073,600; quick: all pairs with start or end in {00:00,00:01,"
         "11:59,12:00,12:01,23:58,23:59} or |end-start| <= 1 (mod 1440) plus Hypothesis pairs. Non-trivial = end <= start "
-        "(wrap or zero); distinct by (start, end).")
+        "(wrap or zero); distinct by (start, end)."
+        ' Also: boundary rows repeated on DST-change days of 5 other host zones, and SwitcherSchedule objects built repeatedly with a re-used slot id.')
 ASSUMPTIONS = ["the result must not depend on the host zone or date: boundary rows are repeated on DST-change days of 5 other host zones (time_machine)", "format H:MM:SS = str(timedelta) of whole minutes, hours not zero-padded, as the statement says"]
 
 EDGE = [0, 1, 719, 720, 721, 1438, 1439]
